@@ -1,4 +1,5 @@
 pub mod bits;
+pub mod bp;
 pub mod dsv;
 pub mod json;
 pub mod jsonmut;
